@@ -1,9 +1,9 @@
 package rules
 
 import (
+	"fmt"
 	"go/types"
 	"math/big"
-	"fmt"
 	"strings"
 
 	"cachelint/core"
